@@ -91,6 +91,46 @@ func g(b *Buffer, mu *Mutex, s string) {
 	mu.Unlock()
 	_ = len(s) >= 0
 }
+
+// no import in this file: locals spelled like packages that other files import
+func noimp(fmt, strings, path, filepath, os, io, regexp, sync, bytes, time, sort, http, flag, errors, context, re int) int {
+	return fmt + re + strings
+}
+`
+
+// two files of one package with same-named function-local types of very different sizes
+const c03Extra3 = `package extra2
+
+func sizesA() int {
+	type item struct{ a [1024]byte }
+	var xs []item
+	n := 0
+	for _, x := range xs {
+		n += int(x.a[0])
+	}
+	var arr [4]item
+	for _, x := range arr {
+		n += int(x.a[0])
+	}
+	return n
+}
+`
+
+const c03Extra4 = `package extra2
+
+func sizesB() int {
+	type item struct{ a [1]byte }
+	var xs []item
+	n := 0
+	for _, x := range xs {
+		n += int(x.a[0])
+	}
+	var arr [4]item
+	for _, x := range arr {
+		n += int(x.a[0])
+	}
+	return n
+}
 `
 
 func c03Targets() ([]target, []target) {
@@ -128,12 +168,12 @@ func c03Targets() ([]target, []target) {
 		}
 	}
 	e1 := harness.Load("extra1", []harness.File{{Name: "e1.go", Src: c03Extra1}})
-	e2 := harness.Load("extra2", []harness.File{{Name: "e2.go", Src: c03Extra2}, {Name: "empty.go", Src: "package extra2\n"}})
+	e2 := harness.Load("extra2", []harness.File{{Name: "e2.go", Src: c03Extra2}, {Name: "empty.go", Src: "package extra2\n"}, {Name: "e3.go", Src: c03Extra3}, {Name: "e4.go", Src: c03Extra4}})
 	if len(e1.Errs)+len(e2.Errs) > 0 {
 		fmt.Fprintln(os.Stderr, "c03 crafted packages do not type-check:", e1.Errs, e2.Errs)
 		os.Exit(2)
 	}
-	ex := []target{{"extra1/e1.go", e1, 0}, {"extra2/e2.go", e2, 0}, {"extra2/empty.go", e2, 1}}
+	ex := []target{{"extra1/e1.go", e1, 0}, {"extra2/e2.go", e2, 0}, {"extra2/empty.go", e2, 1}, {"extra2/e3.go", e2, 2}, {"extra2/e4.go", e2, 3}}
 	alpha = append(alpha, ex...)
 	all = append(all, ex...)
 	return alpha, all
